@@ -85,7 +85,53 @@ func mkFloorMod(a *Term, c int64) *Term {
 		q.DivMod(a.I, big.NewInt(c), m)
 		return mkBig(m)
 	}
+	// (agentB) exact simplification: addends that are multiples of c do not change the residue,
+	// (x + k*c) mod c = x mod c. Keeps Round/Truncate of "instant + whole seconds" down to one shared
+	// (mod clock c) term instead of a fresh mod per lifetime.
+	if r := dropMultiples(a, c); r != a {
+		return mkFloorMod(r, c)
+	}
 	return mkApp("mod", SInt, a, mkInt(c))
+}
+
+// dropMultiples removes from the sum a every addend that is syntactically a multiple of c.
+func dropMultiples(a *Term, c int64) *Term {
+	var addends []*Term
+	var flat func(t *Term)
+	flat = func(t *Term) {
+		if t.Op == "+" {
+			for _, x := range t.Args {
+				flat(x)
+			}
+			return
+		}
+		addends = append(addends, t)
+	}
+	flat(a)
+	bc := big.NewInt(c)
+	changed := false
+	var keep []*Term
+	konst := new(big.Int)
+	for _, t := range addends {
+		switch {
+		case t.IsConst():
+			konst.Add(konst, t.I)
+		case t.Op == "*" && len(t.Args) == 2 && t.Args[1].IsConst() && new(big.Int).Mod(t.Args[1].I, bc).Sign() == 0:
+			changed = true
+		case t.Op == "*" && len(t.Args) == 2 && t.Args[0].IsConst() && new(big.Int).Mod(t.Args[0].I, bc).Sign() == 0:
+			changed = true
+		default:
+			keep = append(keep, t)
+		}
+	}
+	if !changed {
+		return a
+	}
+	var r *Term = mkBig(new(big.Int).Mod(konst, bc))
+	for _, t := range keep {
+		r = mkAdd(t, r)
+	}
+	return r
 }
 
 func init() {
